@@ -13,19 +13,22 @@ LEVEL_NOTE = ("Trusted: Lean 4.33 kernel; axioms limited to propext/Classical.ch
 
 CLAIMS = {
     'C01': dict(
-        text=("Kernel-checked theorem C01_roundtrip_partial / C01_roundtrip_stream_partial: for every order-free "
-              "('plain') well-formed type of the modelled universe, every value and both key-order modes, decoding "
+        text=("Kernel-checked theorem C01_roundtrip_partial / C01_roundtrip_stream_partial: for every well-formed "
+              "type of the modelled universe whose set/map/index-set keys are key types ('keysOk': sets, maps and index "
+              "collections included), every value and both key-order modes, decoding "
               "the encoding (followed by anything) returns the canonical value and leaves exactly what followed; "
               "C01_bulk_loop_exact covers the chunked byte-vector loop for every length. The model is tied to /repo "
               "on every run by a differential run through all six entry points over ~210 catalogue types "
-              "(sets/maps/index collections included, which the theorem does not yet cover: partial)."),
+              "(partial only in that keys which themselves contain keyed collections or deques are covered by the "
+              "differential run, not the theorem). Supporting laws proved for all representations: Val.cmp is a total "
+              "order; sort of distinct keys is strictly ascending; ascending lists are fixed points of sort and collect."),
         technique="Lean 4 proof by structural induction over a nested type universe + differential correspondence check",
         design_ref="§5 C01"),
     'C05': dict(
         text=("Kernel-checked theorems: C05_extension (the slice decoder never looks ahead; every type incl. sets "
               "and maps, both modes), C05_exact_consumption_partial, C05_stream_partial (back-to-back values read back "
               "in order), C05_trailing_rejected_partial, C05_prefix_rejected_partial (from extension + exact "
-              "consumption, no bijectivity needed) for plain types; differential run of deserialize with tails, every "
+              "consumption, no bijectivity needed) for every keysOk type (keyed collections included); differential run of deserialize with tails, every "
               "truncation point, and heterogeneous streams of up to 6 values against the model."),
         technique="Lean 4 proof (prefix-extension lemma by induction over the universe; corollaries) + differential correspondence check",
         design_ref="§5 C05"),
@@ -53,7 +56,7 @@ CLAIMS['C02'] = dict(
 
 CLAIMS['C04'] = dict(
     text=("Kernel-checked theorems: C04_valid_accepted_partial (every valid encoding is accepted with the specified "
-          "value; plain types), C04_unknown_tag / C04_bool_tag (no tag outside the variant tags is ever accepted, any "
+          "value; every keysOk type incl. sets, maps, index collections, both modes), C04_unknown_tag / C04_bool_tag (no tag outside the variant tags is ever accepted, any "
           "sum), C04_nan_rejected, C04_zero_rejected, C04_utf8_rejected, C04_strict_rejects_unsorted / "
           "C04_lax_accepts_unsorted (the mode's only effect on sets), C04_indexSet_counterexample (finding F6, "
           "kernel-decided and replayed on the real code, listed as known finding). Differential run of from_slice / "
@@ -125,10 +128,14 @@ CLAIMS['C17'] = dict(
     text=("Kernel-checked theorems: C17_accept_implies_same_schema (whenever try_from_slice_with_schema::<U> accepts, "
           "the bytes begin with a well-formed container EQUAL to U's schema, the value follows and nothing is left - "
           "contrapositive: a foreign or meaning-changing corrupted schema is rejected), C17_mismatch_rejected, "
-          "C17_insert_sorted_head (definitions are kept in ascending name order). Differential run: 400 ordered type "
+          "C17_insert_sorted_head (definitions are kept in ascending name order), C17_roundtrip_partial (what "
+          "try_to_vec_with_schema writes, try_from_slice_with_schema at the same type accepts and returns the "
+          "canonical value, both modes; uses the map case of C01 on the container's BTreeMap, containerOfVal o "
+          "containerToVal = id and canon_container). Differential run: 400 ordered type "
           "pairs (T written, U read) x values vs the model; single-bit corruptions of the embedded schema; thousands "
           "of generated containers round-tripped through the real to_vec/from_slice (equal container, identical "
-          "bytes). Partial: the container round-trip theorem needs the map case of C01 (not proved yet)."),
+          "bytes). Partial: the round-trip theorem assumes the type's own container is a well-typed wire value "
+          "(decidable per type; UTF-8 names, ascending definitions) and keysOk."),
     technique="Lean 4 proof (acceptance implies schema equality) + differential check over type pairs and generated containers",
     design_ref="§5 C17")
 
@@ -151,11 +158,14 @@ CLAIMS['C12'] = dict(
           "a scripted writer through the write_all loop, against &mut [u8], and against the length-only writer. "
           "Kernel-checked theorems: C12_object_length(_ok) (object_length = length of the encoding, same refusals), "
           "runTraceFixed_eq / C12_fixed_buffer (a buffer that is large enough is filled with exactly the encoding, a "
-          "smaller one receives its first cap bytes and WriteZero; never a panic). Differential run: every value x "
+          "smaller one receives its first cap bytes and WriteZero; never a panic), C12_delivers_encoding / "
+          "C12_prefix_on_failure (any scripted writer - any chunking, any interrupts, a stop of any non-Interrupted "
+          "kind at any offset - receives the whole encoding, or exactly its prefix up to the stop with the writer's "
+          "own error). Differential run: every value x "
           "chunk patterns x interrupts x a stop (Ok(0) or hard failure, 7 kinds) at EVERY offset 0..len x fixed "
           "buffers of EVERY capacity 0..len+1 x object_length, std and no_std io; oracle: delivered bytes are the "
-          "first k bytes of the encoding and the error is unchanged. Partial: the scripted-writer prefix theorem is "
-          "not yet proved (tied by the differential run)."),
+          "first k bytes of the encoding and the error is unchanged. Partial: writers outside the script language "
+          "(returning more than given, Interrupted forever) are not modelled."),
     technique="Lean 4 proof (trace semantics; closed forms for fixed buffers and the length writer) + differential check with scripted writers",
     design_ref="§5 C12")
 
